@@ -35,6 +35,8 @@ def tasks(ctx):
     import props.mapper_common as mc
     for i, ch in enumerate(cc.opcode_chunks(16)):
         ts.append(cc.opcode_task("C23", ch, i))
+    # ... also for the instruction that runs under the halt bug (its first byte is read twice, nothing else differs)
+    ts += [cc.haltbug_task(ch, i) for i, ch in enumerate(cc.opcode_chunks(16))]
     for cls in mc.memory_map():
         if cls[0] in ("SB", "SC"):
             ts.append(mc.routing_task("mbc1", cls, "C23"))
